@@ -1,6 +1,7 @@
 """C17 — configuration loading is format-independent and agrees with encoding/json."""
 import copy
 import json
+import os
 import re
 from decimal import Decimal
 
@@ -407,11 +408,67 @@ def std_shapes_v(t, v, shapes):
             std_shapes_v(t["e"], kv["v"], shapes)
 
 
+# ---------------------------------------------------------------------------- pending fix: nested map layers in conf.buildFieldsInfo
+
+FIX_ID = "F19-nested-map-field-info"
+
+
+def fix_landed():
+    if os.environ.get("VERIF_C17_FIX") in ("0", "1"):      # testing aid (mutation self-test of the pending repair)
+        return os.environ["VERIF_C17_FIX"] == "1"
+    return any(e.get("property") == "C17" and e.get("kind") == "fixed" and e.get("id") == FIX_ID for e in vlib.load_known())
+
+
+def all_keys(d, acc):
+    if "m" in d:
+        for kv in d["m"]:
+            acc.add(kv["k"].lower())
+            all_keys(kv["v"], acc)
+    elif "l" in d:
+        for e in d["l"]:
+            all_keys(e, acc)
+    return acc
+
+
+def nested_map_shape(case):
+    """the (type, document) shapes on which the pinned buildFieldsInfo (no layer for a map nested in
+    another container) differs from the repaired one: below the top container of a field, a map
+    directly followed by a slice on the way to a struct; or a key spelled like a field of that struct"""
+    keys = set()
+    for d in [case["doc"]] + ([case["doc2"]] if case.get("doc2") else []):
+        all_keys(d, keys)
+
+    has_empty = any('"l": []' in json.dumps(d) for d in [case["doc"]] + ([case["doc2"]] if case.get("doc2") else []))
+
+    def chk_fields(fields):
+        for f in flat_fields(fields):
+            ch = []
+            t = deref(f["t"])
+            while t["k"] in ("slice", "map"):
+                ch.append(t["k"])
+                t = deref(t["e"])
+            if any(c == "map" for c in ch[1:]) and "slice" in ch[ch.index("map", 1):] and has_empty:
+                return True        # an empty array below a nested map: [] (pinned: left alone) vs nil (lower-cased copy)
+            if t["k"] != "struct":
+                continue
+            if any(c == "map" for c in ch[1:]):
+                if any(ch[i] == "map" and i + 1 < len(ch) and ch[i + 1] == "slice" for i in range(1, len(ch))):
+                    return True
+                if any(x["key"].lower() in keys for x in flat_fields(t["f"])):
+                    return True
+            if chk_fields(t["f"]):
+                return True
+        return False
+
+    return case["kind"] == "load" and chk_fields(case["type"])
+
+
 # ---------------------------------------------------------------------------- generation
 
 KEY_POOL = ["Name", "port", "LogLevel", "maxConns", "Timeout", "a", "B", "c1", "DB", "Redis", "items", "Tags",
             "Meta", "Host", "user_id", "X", "rate", "Mode", "etcd", "Key9"]
-MAP_KEYS = ["x", "Y", "Zed", "k 1", "a.b", "Name", "port", "UPPER", "1", "true", "null", "yes", "", "~"]
+MAP_KEYS = ["x", "Y", "Zed", "k 1", "a.b", "Name", "port", "UPPER", "1", "true", "null", "yes", "", "~", " lead", "trail ",
+            "1.0", "a: b", "#h", "Ünï"]
 STRINGS = ["", "x", "hello world", "yes", "no", "on", "null", "~", "true", "1.0", "123", "-7", "0x10", "1_000", "1e3",
            "a: b", "#x", " lead", "trail ", "it's", "x\"y", "key=val", "[1,2]", "{a}", "2001-01-01", "12:30", "- a",
            "? q", "@at", "`bt", "%p", "!bang", "&anch", "*star", "|pipe", ">gt", "C:\\path", "a,b", "ünï", "日本",
@@ -449,6 +506,10 @@ class Gen:
     def gen_type(self, depth, plain):
         rng = self.rng
         r = rng.random()
+        if depth >= 1 and rng.random() < 0.06:
+            # multi-layer containers of structs (conf's "multi layer map" key lower-casing)
+            st = St(*self.gen_fields(0, plain, rng.randint(1, 2), allow_embed=False))
+            return rng.choice([Mp(Mp(st)), Sl(Mp(st)), Mp(Sl(st)), Mp(st), Sl(st)])
         if depth <= 0 or r < 0.5:
             return P(self.prim())
         if r < 0.58:
@@ -739,12 +800,18 @@ class C17(Property):
             {"kind": "load", "type": [F("f", P("float64")), F("g", P("float32")), F("l", Sl(Sl(P("int")))),
                                       F("m", Mp(Mp(Sl(P("int")))))],
              "doc": dm(("f", dfl("1.50")), ("g", dfl("2.5e3")), ("l", dl(dl(), dl(di(1)))),
-                       ("m", dm(("o", dm(("i", dl()), ("j", dl(di(2)))))))), "doc2": None, "env": None},
+                       ("m", dm(("o", dm(("i", dl(di(3))), ("j", dl(di(2)))))))), "doc2": None, "env": None},
             {"kind": "load", "type": [F("s", P("string")), F("t", P("string"), O(opt=True))],
              "doc": dm(("s", ds("${C17_A}/x")), ("t", ds("$C17_UNSET"))), "doc2": None, "env": {"C17_A": "valueA"}},
             {"kind": "load", "type": [F("Name", P("string")), F("name", P("int"))], "doc": dm(("Name", ds("x"))), "doc2": None,
              "env": None},
             {"kind": "load", "type": I, "doc": dm(("a", dfl("1.5"))), "doc2": None, "env": None},
+            {"kind": "load", "type": [F("Value", Mp(Mp(St(F("User", P("string")), F("Age", P("int"), O(opt=True)))))),
+                                      F("L", Sl(Mp(St(F("Id", P("int"))))))],
+             "doc": dm(("Value", dm(("first", dm(("User1", dm(("User", ds("u")), ("Age", di(3)))))))),
+                       ("L", dl(dm(("K", dm(("Id", di(1)))))))),
+             "doc2": dm(("value", dm(("first", dm(("User1", dm(("USER", ds("u")), ("age", di(3)))))))),
+                        ("l", dl(dm(("K", dm(("ID", di(1)))))))), "env": None},
             {"kind": "std", "type": [F("a", P("int")), F("m", Mp(P("int"))), F("p", Ptr(P("string"))),
                                      E([F("z", Sl(P("float64")))])],
              "doc": dm(("a", di(2)), ("m", dm(("x", di(1)))), ("p", ds("s")), ("z", dl(dfl("1.5"), NULL))),
@@ -766,6 +833,20 @@ class C17(Property):
             (K_NULLS, {"kind": "std", "type": [F("a", Sl(P("int")))], "doc": dm(("a", dl(NULL, NULL))), "doc2": None,
                        "env": None}),
         ]
+        if fix_landed():
+            cs.append({"kind": "load", "type": [F("m", Mp(Mp(Sl(P("int")))))],
+                       "doc": dm(("m", dm(("o", dm(("i", dl()), ("j", dl(di(2)))))))), "doc2": None, "env": None})
+            S1 = St(F("LogLevel", P("float32")))
+            S2 = St(F("User", P("string")))
+            cs += [
+                {"kind": "load", "type": [F("K", Mp(Mp(Sl(S1))))],
+                 "doc": dm(("K", dm(("1", dm(("Y", dl(dm(("LogLevel", dfl("0.5")))))))))),
+                 "doc2": dm(("k", dm(("1", dm(("Y", dl(dm(("loglevel", dfl("0.5")))))))))), "env": None},
+                {"kind": "load", "type": [F("Value", Mp(Mp(S2))), F("L", Sl(Mp(S2)), O(opt=True))],
+                 "doc": dm(("Value", dm(("first", dm(("User", dm(("User", ds("u")))))))), ("L", dl(dm(("User", dm(("USER", ds("w")))))))),
+                 "doc2": dm(("VALUE", dm(("first", dm(("User", dm(("user", ds("u")))))))), ("l", dl(dm(("User", dm(("User", ds("w")))))))),
+                 "env": None},
+            ]
         kids = vlib.known_ids(self.id)
         for kid, c in flagged:
             if kid in kids:        # kept out until the coordinator has added the known-finding line
@@ -778,6 +859,7 @@ class C17(Property):
         cases = []
         self.skipped = getattr(self, "skipped", {})
         tries = 0
+        landed = fix_landed()
         while len(cases) < n and tries < 20 * n:
             tries += 1
             c = g.load_case() if rng.random() < 0.62 else g.std_case()
@@ -787,6 +869,9 @@ class C17(Property):
                     self.skipped[s] = self.skipped.get(s, 0) + 1
                 continue
             if c["kind"] == "load" and lower_collisions(c):
+                continue
+            if not landed and nested_map_shape(c):      # only after the repair of buildFieldsInfo is in the tree
+                self.skipped[FIX_ID] = self.skipped.get(FIX_ID, 0) + 1
                 continue
             cases.append(c)
         return cases
